@@ -436,7 +436,43 @@ def run_table_2d(chk, spec):
 		chk.fail("t[rows, cols] selects the same cells as t[rows][cols]", f"table-2d/{cls}/{form}", f"{spec!r}: t[{key!r}] gives {short(got, 160)}, list model {short(exp, 160)}")
 
 
-RUNNERS.update({"table_2d": run_table_2d, "rows_held": run_rows_held, "compare_history": run_compare_history, "bigmask": run_bigmask})
+def run_empty_selection(chk, spec):
+	"""a selection that keeps nothing is still a vector of its own carrying its SOURCE's name and kind: select nothing, rename / alias the result, select
+	nothing again (from the same vector and from an equal one)"""
+	vals, how = spec["values"], spec["how"]
+	n = len(vals)
+
+	def empty_of(v):
+		if how == "mask":
+			return v[[False] * n]
+		if how == "mask-vector":
+			return v[Vector([False] * n)]
+		if how == "slice":
+			return v[n + 2:n + 5]
+		return v[1:1]
+	v = Vector(list(vals), name=spec["name"])
+	first = call(empty_of, v)
+	chk.judged("mask", ("empty-selection", how, spec["rename"], kind_of(v).__name__ if kind_of(v) else None))
+	if not first.ok or not isinstance(first.value, Vector):
+		chk.skip("empty-selection-raised")
+		return
+	e1 = first.value
+	if spec["rename"] == "name":
+		call(lambda: setattr(e1, "name", "scratch"))
+	elif spec["rename"] == "alias":
+		call(lambda: e1.alias("scratch"))
+	for label, src in (("same-vector", v), ("equal-vector", Vector(list(vals), name=spec["name"]))):
+		o = call(empty_of, src)
+		if not o.ok:
+			chk.fail("v[mask] / v[slice] that keep nothing return an empty vector", f"mask/empty-selection/raises/{type(o.exc).__name__}", f"{spec!r}: second empty selection ({label}) raised {o!r}")
+			return
+		check_selection(chk, "an empty selection", f"mask/empty-selection/{label}", src, o.value, [], spec)
+		if o.value is e1:
+			chk.fail("a selection returns a new vector", f"mask/empty-selection/{label}/same-object-as-an-earlier-result", f"{spec!r}")
+			return
+
+
+RUNNERS.update({"empty_selection": run_empty_selection, "table_2d": run_table_2d, "rows_held": run_rows_held, "compare_history": run_compare_history, "bigmask": run_bigmask})
 
 
 def run(chk):
@@ -494,6 +530,20 @@ def run(chk):
 						a, b = list(base), list(base)
 						a[pos], b[pos] = x, y
 						chk.case("compare", {"op": "arith", "opname": opname, "form": form, "a": a, "b": b, "ka": "near-equal", "kb": type(x).__name__}, "compare-near-equal")
+	# logical operators over every small pair of bool vectors with None on either side (False wherever a None is)
+	for n in (1, 2):
+		for a in itertools.product([True, False, None], repeat=n):
+			for b in itertools.product([True, False, None], repeat=n):
+				if all(x is None for x in a) or all(x is None for x in b):
+					continue
+				for opname in LOG_OPS:
+					for form in ("vv", "vl", "lv"):
+						chk.case("compare", {"op": "arith", "opname": opname, "form": form, "a": list(a), "b": list(b), "ka": "bool", "kb": "bool-none"}, "compare-logical-none")
+	for kind in ("int", "str", "float", "date"):
+		for how in ("mask", "mask-vector", "slice", "slice-inner"):
+			for rename in ("name", "alias", "none"):
+				for name in (None, "nm"):
+					chk.case("empty_selection", {"values": [rng.choice(ARITH_VALUES[kind]) for _ in range(rng.choice([1, 3]))], "how": how, "rename": rename, "name": name}, "empty-selection")
 	# float columns against ints that no float represents exactly (Python compares these exactly)
 	B = 2 ** 53
 	for opname in CMP_OPS:
